@@ -29,6 +29,7 @@ RULES = {
     'C07.R2': 'is_valid rejects exactly: an absent pair; a project with (not (pc and count==0)) and count outside [lq,uq]; a lecturer with count outside [lq,uq]  (decision table over order types)',
     'C07.R3': 'symbolic step of the fold by cases equals the specification for each printed accumulator (tier, statistic, order)',
     'C07.R4': 'moregen / moregre are the strict lexicographic comparisons from the worst / best rank (first difference decides, equal -> False)',
+    'C07.R8': 'the brute-force path never fails on an undefined name: no local is read before every binding of it, no attribute of self is read that nothing defines',
     'C07.R5': 'profiles have one entry per rank: initial all-matchings greedy profile is [0] * (maximum rank), the length _get_profile produces',
     'C07.R6': "'Infeasible' is printed iff the size accumulator still holds its negative sentinel; otherwise all nine lines are printed",
     'C07.R7': 'initial values of the all-matchings minima dominate every attainable value (max / sum of |load - target|) on every instance',
@@ -98,6 +99,8 @@ def run(rep, repo, tier):
     comps = check_comparators(rep, repo)
     check_fold(rep, repo, f_run, table, comps)
     check_validity(rep, repo)
+    from ..defined import check_defined
+    check_defined(rep, repo, 'C07.R8', [repo.classes[BF].get('__init__'), f_run, f_res], 'brute-force path')
 
 
 # ---- R6 + label table -----------------------------------------------------------------------------------------------
